@@ -72,9 +72,11 @@ func runC15(c *Ctx, r *Report) {
 	})
 	r.Floor("R-C15.2", "success returns of Iterator", nsucc, 1)
 
-	// R-C15.3
+	// R-C15.3 (over Iterator and its literals: the locked part may live in a closure)
+	nLookups := 0
+	for _, fx := range AllFnsUnder(it) {
 	okVars := map[types.Object]*ast.CallExpr{}
-	walkNoLit(it.Body, func(n ast.Node) bool {
+	walkNoLit(fx.Body, func(n ast.Node) bool {
 		as, ok := n.(*ast.AssignStmt)
 		if !ok || len(as.Lhs) != 2 || len(as.Rhs) != 1 {
 			return true
@@ -83,7 +85,7 @@ func runC15(c *Ctx, r *Report) {
 		if !ok {
 			return true
 		}
-		cf := p.Callee(it, call)
+		cf := p.Callee(fx, call)
 		if cf == nil || cf.Name() != "Get" {
 			return true
 		}
@@ -91,16 +93,19 @@ func runC15(c *Ctx, r *Report) {
 			return true
 		}
 		if id, ok := as.Lhs[1].(*ast.Ident); ok && id.Name != "_" {
-			okVars[p.ObjOf(it, id)] = call
+			okVars[p.ObjOf(fx, id)] = call
 		}
 		return true
 	})
-	r.Floor("R-C15.3", "bound-hash lookups in Iterator", len(okVars), 1)
-	mf := &Flow{P: p, Fn: it, May: true, Entry: Facts{}}
+	nLookups += len(okVars)
+	if len(okVars) == 0 {
+		continue
+	}
+	mf := &Flow{P: p, Fn: fx, May: true, Entry: Facts{}}
 	mf.Edge = func(cond ast.Expr, taken bool, f Facts) {
 		for _, a := range splitCond(cond, taken) {
 			if id, ok := ast.Unparen(a.E).(*ast.Ident); ok && !a.Truth {
-				if o := p.ObjOf(it, id); okVars[o] != nil {
+				if o := p.ObjOf(fx, id); okVars[o] != nil {
 					f["failed|"+p.ID(o)] = true
 				}
 			}
@@ -108,7 +113,7 @@ func runC15(c *Ctx, r *Report) {
 	}
 	mf.Node = func(n ast.Node, f Facts) {
 		for _, id := range assignedIdents(n) {
-			if o := p.ObjOf(it, id); o != nil {
+			if o := p.ObjOf(fx, id); o != nil {
 				delete(f, "failed|"+p.ID(o))
 			}
 		}
@@ -119,7 +124,7 @@ func runC15(c *Ctx, r *Report) {
 		// continuing to the traversal (or any send) after a failed lookup
 		walkNoLit(n, func(nd ast.Node) bool {
 			if call, ok := nd.(*ast.CallExpr); ok {
-				if cf := p.Callee(it, call); cf != nil && cf.Name() == "traverse" {
+				if cf := p.Callee(fx, call); cf != nil && cf.Name() == "traverse" {
 					for o := range okVars {
 						if before["failed|"+p.ID(o)] {
 							bad[o] = "the traversal at " + p.Pos(call.Pos())
@@ -134,7 +139,7 @@ func runC15(c *Ctx, r *Report) {
 		if ret == nil {
 			return
 		}
-		if isNil, hasErr := errResultIsNil(p, it, ret); hasErr && isNil {
+		if isNil, hasErr := errResultIsNil(p, fx, ret); hasErr && isNil {
 			for o := range okVars {
 				if at["failed|"+p.ID(o)] {
 					bad[o] = "a success return at " + p.Pos(ret.Pos())
@@ -143,27 +148,30 @@ func runC15(c *Ctx, r *Report) {
 		}
 	})
 	for o, call := range okVars {
-		r.Check(bad[o] == "", "R-C15.3", r.Key("R-C15.3", it, "lookup", types.ExprString(call.Args[0])), call.Pos(),
+		r.Check(bad[o] == "", "R-C15.3", r.Key("R-C15.3", fx, "lookup", types.ExprString(call.Args[0])), call.Pos(),
 			"a failed lookup leads only to error returns",
 			fmt.Sprintf("after this lookup fails control can reach %s: an unknown bound is silently ignored instead of reported", bad[o]))
 	}
+	}
+	r.Floor("R-C15.3", "bound-hash lookups in Iterator", nLookups, 1)
 
 	// R-C15.6: with an upper bound option the start set never falls back to the heads
 	r.Doc("R-C15.6", "on a path where an upper-bound option (LT/LTE) was seen, the start set handed to the traversal is never (re)assigned from the log's heads")
 	headsField := p.Field("", "IPFSLog", "heads")
 	ltF, lteF := p.Field("iface", "IteratorOptions", "LT"), p.Field("iface", "IteratorOptions", "LTE")
-	bf := &Flow{P: p, Fn: it, May: true, Entry: Facts{}}
+	nhs := 0
+	for _, fx := range AllFnsUnder(it) {
+	bf := &Flow{P: p, Fn: fx, May: true, Entry: Facts{}}
 	bf.Edge = func(cond ast.Expr, taken bool, f Facts) {
 		for _, a := range splitCond(cond, taken) {
 			if x, isNil, ok := nilTest(a); ok && !isNil {
-				if v, _ := p.FieldSel(it, x); v == ltF || v == lteF {
+				if v, _ := p.FieldSel(fx, x); v == ltF || v == lteF {
 					f["boundGiven"] = true
 				}
 			}
 		}
 	}
 	bf.Run()
-	nhs := 0
 	bf.Visit(func(_ *cfgBlk, n ast.Node, before Facts) {
 		walkNoLit(n, func(nd ast.Node) bool {
 			as, ok := nd.(*ast.AssignStmt)
@@ -175,13 +183,13 @@ func runC15(c *Ctx, r *Report) {
 				if !ok || i >= len(as.Rhs) {
 					continue
 				}
-				if sl, ok := p.TypeOf(it, id).Underlying().(*types.Slice); !ok || !isNamed(sl.Elem(), p.pkgPath("iface"), "IPFSLogEntry") {
+				if sl, ok := p.TypeOf(fx, id).Underlying().(*types.Slice); !ok || !isNamed(sl.Elem(), p.pkgPath("iface"), "IPFSLogEntry") {
 					continue
 				}
 				mentionsHeads := false
 				ast.Inspect(as.Rhs[i], func(m ast.Node) bool {
 					if e, ok := m.(ast.Expr); ok {
-						if v, _ := p.FieldSel(it, e); v == headsField {
+						if v, _ := p.FieldSel(fx, e); v == headsField {
 							mentionsHeads = true
 						}
 					}
@@ -191,12 +199,13 @@ func runC15(c *Ctx, r *Report) {
 					continue
 				}
 				nhs++
-				r.Check(!before["boundGiven"], "R-C15.6", r.Key("R-C15.6", it, "start-from-heads", id.Name), as.Pos(),
+				r.Check(!before["boundGiven"], "R-C15.6", r.Key("R-C15.6", fx, "start-from-heads", id.Name), as.Pos(),
 					"the start set is taken from the heads only before/without an upper-bound option", "the start set is (re)assigned from the log's heads on a path where an LT/LTE bound was given: a bound that selects nothing (exclusive bound at a root entry, empty list) silently iterates the whole log instead")
 			}
 			return true
 		})
 	})
+	}
 	r.Floor("R-C15.6", "assignments of the start set from the heads", nhs, 1)
 
 	r.Doc("R-C15.5", "the traversal stops taking entries once it reached the lower-bound hash")
